@@ -121,6 +121,8 @@ async def run_worker(loop, sc: dict, make=None, projector=inmem_projector, signa
         be = get_backend(sc["backend"], loop, sc.get("seed", 0), schedule=bool(sc.get("schedule")))
         broker = be["make"]()[0]
         projector, signature = be["projector"], be["signature"]
+        if sc.get("latency"):
+            rec.latency_us = be["latency_us"]      # (the latency clause: due and waiting messages reach a listening consumer)
     elif make is None:
         broker = InMemoryMessageBroker()
     else:
@@ -346,6 +348,15 @@ async def run_worker(loop, sc: dict, make=None, projector=inmem_projector, signa
             args = j["args"]
         else:
             args = {"jid": j["id"]}
+        if j.get("next_exec_ms") is not None:
+            # a recurring job between two iterations, as the worker's reschedule leaves it: period + the stored time of its next run
+            from repid.data._parameters import DelayProperties, Parameters, RetriesProperties
+            qn = j.get("queue", sc["actors"].get(j["actor"], {}).get("queue", "default"))
+            params = Parameters(execution_timeout=kw.get("timeout", timedelta(minutes=10)), retries=RetriesProperties(max_amount=j.get("retries", 0)),
+                                delay=DelayProperties(defer_by=timedelta(milliseconds=j["defer_by_ms"]), next_execution_time=vloop.wall(j["next_exec_ms"] * 1000)),
+                                timestamp=vloop.wall())
+            await conn.message_broker.enqueue(broker.ROUTING_KEY_CLASS(id_=j["id"], topic=j["actor"], queue=qn), json.dumps(args), params)
+            return None
         job = Job(j["actor"], queue=j.get("queue", sc["actors"].get(j["actor"], {}).get("queue", "default")),
                   id_=j["id"], retries=j.get("retries", 0), args=args,
                   store_result=bool(j.get("result", sc.get("results", False))) if rb is not None else False,
@@ -470,6 +481,7 @@ async def run_worker(loop, sc: dict, make=None, projector=inmem_projector, signa
     def do_kill():
         """the worker's process dies: nothing it does reaches the broker any more, no cleanup runs"""
         state["killed"] = True
+        rec.process_dead = True
         broker.conn.dead = True
         rec.emit({"e": "crash", "cs": sorted(c for c in rec.cons.values())})
         if not kill_fut.done():
@@ -577,7 +589,8 @@ async def recover_after_kill(loop, sc, rec, be, jobs):
         await c.start()
         while True:
             try:
-                key, payload, params = await asyncio.wait_for(c.consume(), 2.0)
+                # (long enough for the latency clause to speak: a message that is due and waiting reaches a listening consumer)
+                key, payload, params = await asyncio.wait_for(c.consume(), max(2.0, (be.get("latency_us") or 0) / 1e6 + 1.0))
             except asyncio.TimeoutError:
                 break
             await b3.ack(key)
